@@ -258,7 +258,7 @@ func lengthFields(b []byte) (lens []span, plens []int, flags []int, types []int)
 				case wire.AttrMPReach:
 					if l >= 5 {
 						lens = append(lens, span{v + 3, 1}) // next hop length
-						types = append(types, v+1, v+2)      // AFI low byte, SAFI
+						types = append(types, v+1, v+2)     // AFI low byte, SAFI
 						if n := v + 4 + int(b[v+3]) + 1; n < v+l {
 							plens = append(plens, n)
 						}
